@@ -17,7 +17,8 @@ TRUSTED = [
     "attribute/item stores, del, setattr, mutating method calls, run_pipeline on the caller's object) and whether every "
     "value handed to .set is deep-copied by the site; which pipeline_seed reaches run_pipeline from every run site "
     "(observation loop, the dask chain down to apply_ufunc's kwargs, fitness, _apply_parameters <- Calibration) and whether a "
-    "`with set_random_seed` surrounds the loop over the runs -> src_seeding; fails closed)",
+    "`with set_random_seed` surrounds the loop over the runs -> src_seeding; what ModelGroup.__getstate__ / __setstate__ hand "
+    "over and restore -> src_pickle_policy; fails closed)",
     "correspondence harness: harness/props/c06.py generators, harness/drivers/c06.py (canonical numbering of real "
     "object graphs, value snapshots, standalone oracle built from the JSON spec without Processor.set)",
     "modelled, not verified: CPython copy.deepcopy of plain objects = relocation of the reachable sub-graph (checked "
@@ -883,7 +884,9 @@ def run(ctx: Ctx):
                        "global generator without a seed of its own, shot noise) with a pipeline_seed: product / sequential / "
                        "custom mode, loop / dask synchronous, the swept values in the given order, reversed, thinned, the same "
                        "Observation object run twice, fitness sequences with repeated candidates and 1-3 processors, a real "
-                       "one-island calibration - every run against the standalone exposure under that seed; non-trivial = sets >= 1 parameter (graph) / makes "
+                       "one-island calibration - every run against the standalone exposure under that seed; observation calls "
+                       "under the multi-process dask scheduler (the processor reaches every run through pickle) followed by a "
+                       "loop call on the same objects; graph cases also for a pickle round trip; non-trivial = sets >= 1 parameter (graph) / makes "
                        ">= 2 runs (behaviour)")
     ctx.cov["traces_validated_against_impl"] = len(graphs) + len(behs)
     ctx.cov["disagreements_checked"] = len(mism)
@@ -967,16 +970,19 @@ META = dict(
         "input and output of every pipeline: because every run site brackets EVERY run with the pipeline seed (regenerated "
         "table src_seeding), the outcomes of a call are the outcomes of the standalone exposures under that seed, for every "
         "history, every order / subset of runs and every state of the ambient generator, which is restored - and the "
-        "statement is refuted for one bracket around the whole loop and for a dropped seed; a site that writes to the caller "
+        "statement is refuted for one bracket around the whole loop and for a dropped seed; the pickle round trip by which "
+        "a processor reaches the runs under a multi-process scheduler (regenerated policy of ModelGroup's pickle hooks) is a "
+        "fresh isomorphic block as well; a site that writes to the caller "
         "keeps the frame iff it restores in a finally clause (both directions proved on the model); with one aliasing "
         "field or an in-place site the frame statement is refuted on a concrete witness. "
         "That pyxel's real object graphs and CPython's deepcopy behave like the model is established by correspondence "
         "(testing): Coq recomputes the copied block for every generated real processor graph and compares it with what "
-        "deepcopy / replace / create_new_processor / update_processor / build_processors / fitting init produced, and "
+        "deepcopy / pickle / replace / create_new_processor / update_processor / build_processors / fitting init produced, and "
         "judges value snapshots of the caller's objects (which carry a history: detector memory, trapped charge, bucket "
         "contents of earlier exposures) and every observation / dask (synchronous and threaded) / fitness run, every "
         "candidate evaluated by a real multi-island calibration and every copy site asked to apply a rejected value "
-        "against an independently built standalone exposure."),
+        "against an independently built standalone exposure (under the same pipeline seed where there is one; dask synchronous, "
+        "threaded and multi-process)."),
     level_note=(
         "Trusted: Coq kernel + vm_compute; translator/c06.py (field modes, copy-before-set shape, which processor is run, "
         "writes to the caller's objects by taint analysis, value deep-copied before set, where the seed bracket sits, no "
